@@ -190,6 +190,34 @@ def eval (T : List Site) (P : PermissionSet) : Nat → Expr → Log → Res × L
       | (_, l') => eval T P f body l'
     | .thunk body n => repeatN (eval T P f) body n l
 
+/- nesting depth: fuel that is enough for `eval` (C11.fuel_suffices) -/
+mutual
+def Expr.depth : Expr → Nat
+  | .lit => 1
+  | .bad => 1
+  | .nat _ args => 1 + depthList args
+  | .seq a b => 1 + max a.depth b.depth
+  | .wrap args body => 1 + max (depthList args) body.depth
+  | .thunk body _ => 1 + body.depth
+def depthList : List Expr → Nat
+  | [] => 0
+  | a :: r => max a.depth (depthList r)
+end
+
+/- every site index used by the program is a row of a table with `n` rows -/
+mutual
+def Expr.sitesIn (n : Nat) : Expr → Bool
+  | .lit => true
+  | .bad => true
+  | .nat s args => decide (s < n) && sitesInList n args
+  | .seq a b => a.sitesIn n && b.sitesIn n
+  | .wrap args body => sitesInList n args && body.sitesIn n
+  | .thunk body _ => body.sitesIn n
+def sitesInList (n : Nat) : List Expr → Bool
+  | [] => true
+  | a :: r => a.sitesIn n && sitesInList n r
+end
+
 /-- number of effect entries of a channel -/
 def countKind (k : Kind) (l : Log) : Nat :=
   (l.filter (fun e => match e with
